@@ -43,6 +43,12 @@ def run(ctx):
     c02_2(ctx)
     c02_3(ctx)
     c02_4(ctx)
+    # "the reported totals equal the sums over the listed spends": the owned summary lists every spend (shared with C01.8)
+    from . import c01_owned, c11
+    c01_owned.run(ctx, R="C02.5")
+    # "minimal big-endian encoding of the amount": the coin id hashes the raw amount atom, so the sanitiser must admit only the
+    # canonical form (shared with C11.2)
+    c11.c11_2(ctx, R="C02.6")
 
 
 def c02_1(ctx):
